@@ -40,6 +40,9 @@ def is_subclass(c: str, parent: str):
     return False
 
 
+TYPE_NAMES = {"dict", "list", "str", "int", "tuple", "set", "bool", "float", "bytes", "object", "type"} | set(EXC_PARENTS)
+
+
 class State:
     __slots__ = ("pc", "env", "heap", "guards", "pending", "trace")
 
@@ -101,6 +104,7 @@ class Engine:
         self.returns_reached = 0
         self.loop_nodes = {id(n): k for k, n in enumerate(self.func.loops())}
         self.rebound: list[str] = []
+        self.local_names = {n.id for n in ast.walk(self.func.node) if isinstance(n, ast.Name) and isinstance(n.ctx, ast.Store)}
         self._check_loops()
         self.input_terms: dict[str, Term] = {}
         for p, ty in contract.fields.items():
@@ -215,9 +219,14 @@ class Engine:
             return FnV("spec", fn=self.spec_env[node.id], name=node.id)
         if node.id in self.c.calls or node.id in BUILTINS:
             return FnV("named", name=node.id)
+        if node.id in TYPE_NAMES:
+            return FnV("type", name=node.id)
         consts = self.c.ghost.get("constants", {})
         if node.id in consts:
             return const_val(self, consts[node.id])
+        if node.id in self.local_names:
+            self.may_raise(st, FALSE, "UnboundLocalError", node.id)
+            return NoneV()
         raise GenerationError(f"unbound name {node.id} in {self.c.qualname}")
 
     def e_Attribute(self, node, st, spec):
@@ -334,8 +343,6 @@ class Engine:
 
     def e_List(self, node, st, spec):
         items = [self.eval(e, st, spec) for e in node.elts]
-        if items and all(isinstance(i, V) for i in items) and len({repr(i.ty) for i in items}) == 1:
-            return V(TSeq(items[0].ty), smt.SeqLit(items[0].t.sort, [i.t for i in items]))
         return ListV(items)
 
     def e_Dict(self, node, st, spec):
@@ -360,6 +367,38 @@ class Engine:
                     raise GenerationError("f-string format spec")
                 t = smt.Concat(t, py_str(self, self.eval(part.value, st, spec)).t)
         return V(STR, t)
+
+    def _comp(self, node, st, spec, build):
+        if len(node.generators) != 1 or node.generators[0].ifs:
+            return self._opaque_comp(node, st, spec)
+        gen = node.generators[0]
+        view = iter_view(self, st, self.eval(gen.iter, st, spec), self.origin(gen.iter))
+        if view.concrete is None:
+            return self._opaque_comp(node, st, spec)
+        saved = dict(st.env)
+        out = []
+        for i in range(view.concrete):
+            self.store(gen.target, view.elem(IntVal(i)), st)
+            out.append(build(st))
+        st.env = saved
+        return out
+
+    def _opaque_comp(self, node, st, spec):
+        """A comprehension the property does not depend on: an unconstrained JSON-like value."""
+        return V(JSON, self.decls.fresh("comp", sort_of(JSON, self.decls)))
+
+    def e_ListComp(self, node, st, spec):
+        r = self._comp(node, st, spec, lambda s: self.eval(node.elt, s, spec))
+        return ListV(r) if isinstance(r, list) else r
+
+    def e_GeneratorExp(self, node, st, spec):
+        return self.e_ListComp(node, st, spec)
+
+    def e_DictComp(self, node, st, spec):
+        return self._opaque_comp(node, st, spec)
+
+    def e_SetComp(self, node, st, spec):
+        return self._opaque_comp(node, st, spec)
 
     def e_Lambda(self, node, st, spec):
         return FnV("lambda", node=node, env=dict(st.env))
@@ -387,6 +426,10 @@ class Engine:
             if node.func.id == "ite":
                 c = truthy(self, self.eval(node.args[0], st, True))
                 return self.merge_vals(c, self.eval(node.args[1], st, True), self.eval(node.args[2], st, True))
+        if txt.startswith("log.") and not spec:
+            # logging: never raises, no effect visible to any contract (DESIGN 2.3); arguments are not
+            # evaluated because formatting is lazy in the logging module
+            return NoneV()
         how = self.c.calls.get(txt)
         if how is not None and not spec:
             args = [self.eval(a, st, spec) for a in node.args]
@@ -555,4 +598,4 @@ class Engine:
         return And(*side, truthy(self, v))
 
 
-from .builtins_ import BUILTINS, json_method, set_method  # noqa: E402
+from .builtins_ import BUILTINS, json_method, set_method, iter_view  # noqa: E402
